@@ -191,6 +191,8 @@ inductive Op
   | coldreset
   /-- the fabric blob `i` is damaged, restart (start-up fails), factory reset, restart -/
   | fabrecover (i : Nat)
+  /-- an operation on objects of its own (TLV round trip of a persisted structure): the node is untouched -/
+  | nop
 deriving Repr, DecidableEq, Inhabited
 
 /-! ## the store -/
@@ -735,6 +737,7 @@ def step (cfg : Cfg) (n : Node) (op : Op) : Node × Status :=
     | .fabrecover _ =>
       -- the same after a start-up that failed on a damaged fabric blob
       ok { now := n.now, nextGen := n.nextGen }
+    | .nop => ok n
     | .tick secs => ok { n with now := n.now + secs }
     | .poll =>
       match checkTimeouts cfg n none with
